@@ -37,6 +37,61 @@ def touches_buf(tm, term):
     return False
 
 
+def _subterms(t, out=None):
+    out = [] if out is None else out
+    if isinstance(t, tuple):
+        if t and isinstance(t[0], str):
+            out.append(t)
+        for x in t:
+            if isinstance(x, tuple):
+                _subterms(x, out)
+    return out
+
+
+def find_guards(r, b, gs, c, fn, kinds, dist):
+    """Distance guards `dist > bound -> Err` of one body: ({kind: found}, [guard blocks])."""
+    need = {k: False for k in kinds}
+    gblocks = []
+    for (bb, t, z, nz) in gs:
+        s = pat.cmp_sides(t)
+        if not s:
+            continue
+        op, a, bnd = s
+        # dist > bound  (or bound < dist)
+        if op == "Gt" and pat.has_arg(a, dist):
+            rej, bound = nz, bnd
+        elif op == "Lt" and pat.has_arg(bnd, dist):
+            rej, bound = nz, a
+        elif op == "Le" and pat.has_arg(a, dist):
+            rej, bound = z, bnd
+        elif op == "Ge" and pat.has_arg(bnd, dist):
+            rej, bound = z, a
+        else:
+            continue
+        if pat.has_op(a, ("Add", "Sub")) and pat.has_arg(a, dist) and op in ("Gt", "Le"):
+            continue
+        kind = None
+        if pat.has_field(bound, "dict_size") and not pat.has_op(bound, ("Add", "Sub", "Mul")):
+            kind = "dict_size"
+        elif (pat.has_field(bound, "len") or (pat.has_call(bound, "Vec::len") and pat.has_field(bound, "buf"))) and \
+                not pat.has_op(bound, ("Add", "Sub", "Mul")):
+            kind = "produced"
+        if kind is None or kind not in need:
+            continue
+        where = pat.where(b, bb)
+        if flow.reaches_ok(b, rej):
+            if r is not None:
+                r.sites += 1
+                r.bad("%s|%s-edge" % (fn, kind), "a distance beyond the %s bound can still be served" % kind, where)
+        else:
+            need[kind] = True
+            gblocks.append(bb)
+            if r is not None:
+                r.sites += 1
+                r.ok("path", {"fn": fn, "guard": "dist > %s -> Err" % kind})
+    return need, gblocks
+
+
 def rule_guards(facts):
     r = report.RuleResult("C09.R1", "both distance guards precede every window access in last_n / append_lz of every window")
     impls = [b for b in facts.bodies if b.promoted is None and b.trait == "decode::lzbuffer::LzBuffer" and
@@ -48,44 +103,39 @@ def rule_guards(facts):
         c = cfg(b)
         circular = b.self_ty is not None and any(
             f["name"] == "dict_size" for f in (facts.adts.get(b.self_ty.defk) or {"variants": [{"fields": []}]})["variants"][0]["fields"])
-        need = {"produced": False}
-        if circular:
-            need["dict_size"] = False
-        gblocks = []
-        for (bb, t, z, nz) in gs:
-            s = pat.cmp_sides(t)
-            if not s:
-                continue
-            op, a, bnd = s
-            # dist > bound  (or bound < dist)
-            if op == "Gt" and pat.has_arg(a, "dist"):
-                rej, bound = nz, bnd
-            elif op == "Lt" and pat.has_arg(bnd, "dist"):
-                rej, bound = nz, a
-            elif op == "Le" and pat.has_arg(a, "dist"):
-                rej, bound = z, bnd
-            elif op == "Ge" and pat.has_arg(bnd, "dist"):
-                rej, bound = z, a
-            else:
-                continue
-            if pat.has_op(a, ("Add", "Sub")) and pat.has_arg(a, "dist") and op in ("Gt", "Le"):
-                continue
-            kind = None
-            if pat.has_field(bound, "dict_size") and not pat.has_op(bound, ("Add", "Sub", "Mul")):
-                kind = "dict_size"
-            elif (pat.has_field(bound, "len") or (pat.has_call(bound, "Vec::len") and pat.has_field(bound, "buf"))) and \
-                    not pat.has_op(bound, ("Add", "Sub", "Mul")):
-                kind = "produced"
-            if kind is None or kind not in need:
-                continue
-            r.sites += 1
-            where = pat.where(b, bb)
-            if flow.reaches_ok(b, rej):
-                r.bad("%s|%s-edge" % (fn, kind), "a distance beyond the %s bound can still be served" % kind, where)
-            else:
-                need[kind] = True
-                gblocks.append(bb)
-                r.ok("path", {"fn": fn, "guard": "dist > %s -> Err" % kind})
+        kinds = ["produced"] + (["dict_size"] if circular else [])
+        need, gblocks = find_guards(r, b, gs, c, fn, kinds, "dist")
+        # guards extracted into a local helper `fn check(&self, dist) -> Result<..>` called with `?`
+        if not all(need.values()):
+            for blk in b.calls():
+                cal = blk.term.callee
+                if cal is None or not cal.target().local or len(blk.term.args) < 2:
+                    continue
+                hb = facts.by_def.get(cal.target().defk)
+                if hb is None or hb.locals[0].ty.name != "std::result::Result":
+                    continue
+                di = [i for i, a_ in enumerate(blk.term.args) if tm.of_operand(a_) == ("arg", 2, "dist") or
+                      (pat.strip(tm.of_operand(a_)) or (None,))[0] == "arg" and pat.has_arg(tm.of_operand(a_), "dist")]
+                if not di or not pat.has_arg(tm.of_operand(blk.term.args[0]), "self"):
+                    continue
+                hgs, _htm = pat.guards(hb)
+                hneed, hg = find_guards(None, hb, hgs, cfg(hb), short(hb.name), kinds, hb.locals[di[0] + 1].name)
+                if not all(hneed.values()):
+                    continue
+                # the success edge of `helper(..)?` in the caller
+                for x in b.blocks:
+                    if x.cleanup or x.term.k != "switch":
+                        continue
+                    t = tm.of_operand(x.term.discr)
+                    if t[0] == "discr" and any(q[0] == "call" and len(q) > 3 and q[3] == blk.idx for q in _subterms(t)):
+                        okedge = dict(x.term.targets).get(0)
+                        brk = dict(x.term.targets).get(1)
+                        if okedge is not None and (brk is None or not flow.reaches_ok(b, brk)):
+                            for k in kinds:
+                                need[k] = True
+                            gblocks = [okedge] * len(kinds)
+                            r.sites += 1
+                            r.ok("path", {"fn": fn, "guards": "in helper %s, applied with `?`" % short(hb.name)})
         for k, v in need.items():
             if not v:
                 r.bad("%s|missing-%s" % (fn, k), "no `dist > %s` guard (rejecting with Err) in %s" %
@@ -95,7 +145,7 @@ def rule_guards(facts):
         # the guard on the produced length may itself read buf.len(): exclude pure length reads
         acc = [x for x in acc if not (flow.callee(b.blocks[x].term) or "").endswith(("Vec::len",))]
         for x in acc:
-            if all(c.dominates(g, x) for g in gblocks) and len(gblocks) == len(need):
+            if all(c.dominates(g, x) or g == x for g in gblocks) and len(gblocks) == len(need):
                 r.ok("dominance", None)
             else:
                 r.bad("%s|unguarded:%s" % (fn, (flow.callee(b.blocks[x].term) or "").split("::")[-1]),
